@@ -44,7 +44,7 @@ def run(ctx):
     base = sc.generate(ctx, "f_one", [1], 2, GAPS, "std") + sc.generate(ctx, "f_oneR", [2], 2, GAPS, "std")
     base += [c for c in sc.generate(ctx, "f_two", [1, 2], 2, GAPS, "std", filt="disjoint")
              if {t[1] for t in c["tokens"] if t[0] == "U"} == {0, 1}]
-    base, full = sc.slice_cases(base, 40 if quick else 600, ctx.seed * 86028121 + 1)
+    base, full = sc.slice_cases(base, 40 if quick else 150, key="faultbase")
     ctx.cov["exhaustive"] = False
     golden = sc.with_flavors([dict(c, tokens=[["F", NEVER, 4]] + c["tokens"]) for c in base], flavors)
     gtraces = sysfam.run_cases(ctx, golden)
@@ -74,4 +74,4 @@ def replay(ctx, rep):
 
 
 if __name__ == "__main__":
-    main("C10", run, replay)
+    main("C10", run, replay, level="fault_enumeration")
